@@ -36,6 +36,9 @@ def check(tier):
     for d in ALL_DEVS:
         neg = core.tlc("mc/MC_C03_dev.tla", f"mc/MC_C03_{d}.cfg", workers=2, expect_violation=True, timeout=300)
         run.cov.setdefault("deviation_models_refuted", {})[d] = neg.violated
+    # mix the module defaults within every batch (TLC emits the cases grouped by module default)
+    import random
+    random.Random(core.seed()).shuffle(cases)
     events = drive_and_validate(run, cases, shards=4)
     run.cov["evaluations"] = len(cases)
     run.cov["distinct_nontrivial"] = len({(e["asn"].split("::=", 1)[1], e["md"]) for e in events if e["status"] == "ok"})
